@@ -1011,8 +1011,11 @@ func VH03g_burst() {
 	perm := verif.Param("perm", 0) == 1
 	used := map[int]bool{}
 	last := -1
+	// parameter "A": size of the event alphabet (8 adds: the fail-no-peers option is switched over)
+	A := verif.Param("A", 7)
+	fnp := false
 	for k := 0; k < K; k++ {
-		ev := verif.Choice("ev", 7)
+		ev := verif.Choice("ev", A)
 		if perm {
 			verif.Assume(!used[ev] || ev == 3)
 			used[ev] = true
@@ -1055,6 +1058,9 @@ func VH03g_burst() {
 			x := &rrec{}
 			recvs = append(recvs, x)
 			x.g = verif.Go("recv", func() { x.m, x.err = r.recvMsg() })
+		case 7:
+			fnp = !fnp
+			verif.Assert(setopt(mangos.OptionFailNoPeers, fnp) == nil, lab+"/set-fail-no-peers")
 		}
 		if perm || verif.Choice("settle", 2) == 1 {
 			verif.QuiesceKeep()
@@ -1082,7 +1088,7 @@ func VH03g_burst() {
 	}
 	for _, s := range sends {
 		if s.g.Done() {
-			verif.Assert(s.err == nil || (sdl && s.err == mangos.ErrSendTimeout), lab+"/unexpected-send-error")
+			verif.Assert(s.err == nil || (sdl && s.err == mangos.ErrSendTimeout) || (A > 7 && s.err == mangos.ErrNoPeers), lab+"/unexpected-send-error")
 		}
 	}
 	verif.Reach("burst-done")
